@@ -7,21 +7,21 @@ import (
 )
 
 func c37MailboxSpecs(r *ev.R) []c37Spec {
-	b2 := ev.Pick(r, 3, 4)
-	b3 := ev.Pick(r, 3, 5)
+	wide := ev.Pick(r, 3, 4) // delay bound of the parameterised scenarios
+	deep := ev.Pick(r, 3, 5) // delay bound of the plain 2x2 + closer scenarios
 	d := "mailbox"
 	return []c37Spec{
-		{Name: "mailbox-w1-q1-same-abc", Driver: d, Workers: 1, QSize: 1, KeyMode: "same", Order: "abc", Bound: b3},
-		{Name: "mailbox-w2-q2-same-latency-acb", Driver: d, Workers: 2, QSize: 2, KeyMode: "same", Order: "acb", Latency: true, Bound: b2},
-		{Name: "mailbox-w2-q2-same-batch2wait-cab-closeafter2", Driver: d, Workers: 2, QSize: 2, KeyMode: "same", MBBatch: 2, MBWait: true, Order: "cab", CloseAfter: 2, Latency: true, Bound: b2},
-		{Name: "mailbox-w1-q2-diff-abc", Driver: d, Workers: 1, QSize: 2, KeyMode: "diff", Order: "abc", Latency: true, Bound: b2},
-		{Name: "mailbox-w2-q1-diff-bca-closeafter1", Driver: d, Workers: 2, QSize: 1, KeyMode: "diff", Order: "bca", CloseAfter: 1, Latency: true, Bound: b2},
-		{Name: "mailbox-w2-q2-mixed-batch2-abc", Driver: d, Workers: 2, QSize: 2, KeyMode: "mixed", MBBatch: 2, Order: "abc", Latency: true, Bound: b2},
-		{Name: "mailbox-w1-q2-mixed-subcancelled", Driver: d, Workers: 1, QSize: 2, KeyMode: "mixed", Order: "bac", SubCtx: "cancelled", Bound: b2},
-		{Name: "mailbox-w1-q2-same-close-expired", Driver: d, Workers: 1, QSize: 2, KeyMode: "same", Order: "abc", CloseCtx: "expired", Latency: true, Bound: b2},
-		{Name: "mailbox-w1-q2-same-batch2wait-close-timeout", Driver: d, Workers: 1, QSize: 2, KeyMode: "same", MBBatch: 2, MBWait: true, Order: "acb", CloseCtx: "timeout", Latency: true, Bound: b2},
+		{Name: "mailbox-w1-q1-same-abc", Driver: d, Workers: 1, QSize: 1, KeyMode: "same", Order: "abc", Bound: deep},
+		{Name: "mailbox-w2-q2-same-latency-acb", Driver: d, Workers: 2, QSize: 2, KeyMode: "same", Order: "acb", Latency: true, Bound: wide},
+		{Name: "mailbox-w2-q2-same-batch2wait-cab-closeafter2", Driver: d, Workers: 2, QSize: 2, KeyMode: "same", MBBatch: 2, MBWait: true, Order: "cab", CloseAfter: 2, Latency: true, Bound: wide},
+		{Name: "mailbox-w1-q2-diff-abc", Driver: d, Workers: 1, QSize: 2, KeyMode: "diff", Order: "abc", Latency: true, Bound: wide},
+		{Name: "mailbox-w2-q1-diff-bca-closeafter1", Driver: d, Workers: 2, QSize: 1, KeyMode: "diff", Order: "bca", CloseAfter: 1, Latency: true, Bound: wide},
+		{Name: "mailbox-w2-q2-mixed-batch2-abc", Driver: d, Workers: 2, QSize: 2, KeyMode: "mixed", MBBatch: 2, Order: "abc", Latency: true, Bound: wide},
+		{Name: "mailbox-w1-q2-mixed-subcancelled", Driver: d, Workers: 1, QSize: 2, KeyMode: "mixed", Order: "bac", SubCtx: "cancelled", Bound: wide},
+		{Name: "mailbox-w1-q2-same-close-expired", Driver: d, Workers: 1, QSize: 2, KeyMode: "same", Order: "abc", CloseCtx: "expired", Latency: true, Bound: wide},
+		{Name: "mailbox-w1-q2-same-batch2wait-close-timeout", Driver: d, Workers: 1, QSize: 2, KeyMode: "same", MBBatch: 2, MBWait: true, Order: "acb", CloseCtx: "timeout", Latency: true, Bound: wide},
 		// producer b submits behind a finishing drain of the same shard; Close only after all submits
-		{Name: "mailbox-w2-q2-same-latency-b-after-drain", Driver: d, Workers: 2, QSize: 2, KeyMode: "same", Order: "abc", Latency: true, BAfterHandled: 2, CloseAfter: 4, Bound: b2},
-		{Name: "mailbox-w2-q2-same-b-after-first-item", Driver: d, Workers: 2, QSize: 2, KeyMode: "same", Order: "abc", Latency: true, BAfterHandled: 1, Bound: b2},
+		{Name: "mailbox-w2-q2-same-latency-b-after-drain", Driver: d, Workers: 2, QSize: 2, KeyMode: "same", Order: "abc", Latency: true, BAfterHandled: 2, CloseAfter: 4, Bound: wide},
+		{Name: "mailbox-w2-q2-same-b-after-first-item", Driver: d, Workers: 2, QSize: 2, KeyMode: "same", Order: "abc", Latency: true, BAfterHandled: 1, Bound: wide},
 	}
 }
